@@ -103,4 +103,38 @@ Definition stop_method_ok (m : model) : bool :=
 Definition wf_C09 (m : model) : bool :=
   wf_struct m && forallb (slf_shape_ok m) (slf_bodies m)
   && implb (has_slf m) (stop_first m && stop_method_ok m)
-  && Bool.eqb (r_clonable (elab m)) (r_guard (elab m) || negb (has_slf m)).
+  && Bool.eqb (r_clonable (elab m)) (r_guard (elab m) || negb (has_slf m))
+  (* a self-consuming method without the sole-owner guard is not visible outside its module *)
+  && forallb (fun lm => match lm_body lm with BSlf b => implb (negb (guard_ok b)) (String.eqb (lm_vis lm) "") | _ => true end) (m_methods m).
+Definition slf_facts (m : model) : list (string * string * bool) :=
+  flat_map (fun lm => match lm_body lm with BSlf b => [(lm_name lm, lm_vis lm, guard_ok b)] | _ => [] end) (m_methods m).
+
+(* C04: constructor: the user's constructor is called first, exactly once, with the handle constructor's own arguments in
+   order; `?` is applied exactly when it returns Option / Result, so that a failure value is returned unchanged before
+   any channel or thread exists; the success value is wrapped by the matching Some / Ok *)
+Definition contains (sub s : string) : bool := match String.index 0 sub s with Some _ => true | None => false end.
+Fixpoint ends_with (suf s : string) : bool :=
+  if String.eqb suf s then true else match s with EmptyString => false | String _ t => ends_with suf t end.
+Definition core_order (l : list string) : list string := filter (fun x => negb (String.eqb x "phantom" || String.eqb x "debut")) l.
+Fixpoint list_str_eqb (a b : list string) : bool :=
+  match a, b with [] , [] => true | x :: a', y :: b' => String.eqb x y && list_str_eqb a' b' | _, _ => false end.
+Definition ctor_shape_ok (m : model) : bool :=
+  match filter (fun lm => match lm_body lm with BCtor _ => true | _ => false end) (m_methods m) with
+  | [lm] =>
+      match lm_body lm with
+      | BCtor c =>
+          match cb_user c with
+          | Some u =>
+              let fallible := contains "Option <" (cb_ret c) || contains "Result <" (cb_ret c) in
+              list_str_eqb (core_order (cb_order c)) ["user"; "chan"; "spawn"]
+              && String.eqb (hd "" (cb_order c)) "user"
+              && Bool.eqb (uc_try u) fallible
+              && (if fallible then (if contains "Option <" (cb_ret c) then ends_with "Some" (cb_wrap c) else ends_with "Ok" (cb_wrap c))
+                  else String.eqb (cb_wrap c) "")
+              && list_str_eqb (map (fun a => match a with SVar x => x | _ => "?" end) (uc_args u)) (map fst (lm_params lm))
+              && String.eqb (uc_method u) (lm_name lm)
+          | None => list_str_eqb (core_order (cb_order c)) ["chan"; "spawn"]
+          end
+      | _ => false end
+  | _ => false end.
+Definition wf_C04 (m : model) : bool := wf_struct m && ctor_shape_ok m.
